@@ -1065,6 +1065,8 @@ VARIANTS = {
     "accumulate#operator-add": ("accumulate", lambda L, S: L.accumulate(S[0], operator.add)),
     "islice#open-ended-big-step": ("islice", lambda L, S: L.islice(S[0], 0, None, 40)),
     "islice#big-step": ("islice", lambda L, S: L.islice(S[0], 0, 10 ** 6, 40)),
+    "islice#definite-stop": ("islice", lambda L, S: L.islice(S[0], 0, 10 ** 6)),
+    "islice#start-and-stop": ("islice", lambda L, S: L.islice(S[0], 3, 10 ** 6, 2)),
     "batched#threes": ("batched", lambda L, S: L.batched(S[0], 3)),
     "nlargest#ascending": ("nlargest", lambda L, S: L.nlargest(S[0], 5, key=lambda x: x.p)),
     "nsmallest#descending": ("nsmallest", lambda L, S: L.nsmallest(S[0], 5, key=lambda x: -x.p)),
